@@ -675,3 +675,42 @@ def check_derived_variables(run, tree):
                    "derived variable missing or wrong (B_field is not the mean of the face fields, mass is not density * dx**3); a missing input aborts the load")
         except ERR as e:
             run.unresolved(construct, fi.where(), "cannot fold: %s" % e)
+
+
+# =============================================================================== units/library.py::UnitsLibrary histories
+def check_units_library(run, tree):
+    """UnitsLibrary interpreted over TWO instances with different contents (each dataset builds its own from its unit_d/unit_l/unit_t):
+    exact keys, wildcard keys, the default, assignment after a lookup -- any state shared between instances or kept across
+    assignments shows as a wrong answer in the second half of the history"""
+    import re as _re
+    ci = tree.cls("units/library.py::UnitsLibrary")
+    gi = tree.method(ci, "__getitem__")
+    run.analysed(gi)
+    hooks = {"ext": {"re.compile": _re.compile, "re.match": _re.match, "re.fullmatch": _re.fullmatch, "re.search": _re.search, "re.escape": _re.escape,
+                     "fnmatch.fnmatch": __import__("fnmatch").fnmatch, "fnmatch.fnmatchcase": __import__("fnmatch").fnmatchcase}, "globals": {}, "class": {}, "pkgfunc": {}}
+    construct = "units/library.py::UnitsLibrary[two instances, lookups and assignments]"
+    try:
+        ev = ModelEval(tree, tree.method(ci, "__init__"), {}, hooks)
+        mk = lambda tag: ev.instantiate(ci, [{"density": "D" + tag, "velocity_*": "V" + tag, "position_*": "P" + tag, "velocity_z": "VZ" + tag}, "DEF" + tag], {}, None)
+        a, b = mk("1"), mk("2")
+        get = lambda o, k: ev.invoke(gi, [o, k], {}, None)
+        si = tree.method(ci, "__setitem__")
+        steps = [("a", "velocity_x", "V1"), ("b", "velocity_x", "V2"), ("a", "density", "D1"), ("b", "density", "D2"), ("a", "nothing", "DEF1"), ("b", "nothing", "DEF2"),
+                 ("a", "velocity_z", "VZ1"), ("b", "position_y", "P2"), ("a", "position_y", "P1"), ("b", "velocity_x", "V2")]
+        problems = []
+        for who, key, want in steps:
+            got = get(a if who == "a" else b, key)
+            if got != want:
+                problems.append("%s[%r] -> %r (required %r)" % (who, key, got, want))
+        ev.invoke(si, [a, "velocity_x", "NEW"], {}, None)
+        ev.invoke(si, [b, "velocity_*", "W2"], {}, None)
+        for who, key, want in (("a", "velocity_x", "NEW"), ("a", "velocity_y", "V1"), ("b", "velocity_x", "W2"), ("b", "velocity_y", "W2")):
+            got = get(a if who == "a" else b, key)
+            if got != want:
+                problems.append("after assignment: %s[%r] -> %r (required %r)" % (who, key, got, want))
+        run.ob(construct, not problems, gi.where(), "; ".join(problems[:3]) or "every lookup answers from the instance's own, current table",
+               "the second dataset loaded in a process gets the first one's unit factors for wildcard variables (velocity_*, position_*), or an updated unit is ignored")
+    except (Raised, ProgramRaised) as e:
+        run.violated(construct, gi.where(), "raises %s" % e, "unit lookup")
+    except ERR as e:
+        run.unresolved(construct, gi.where(), "cannot fold: %s" % e)
